@@ -77,6 +77,12 @@ THEOREMS = [
     "Typedpy.C18.typedpy_problem_good",
     "Typedpy.C18.templates_wellFormed",
     "Typedpy.C18.fixed_templates_examples",
+    "Typedpy.C18.isOk_dValidated",
+    "Typedpy.C18.isOk_toValueErr",
+    "Typedpy.C18.isOk_mapE",
+    "Typedpy.C18.p1Scalar_eq_deser",
+    "Typedpy.C18.p1_elems_eq_deser",
+    "Typedpy.C18.p1Rejects_homog_eq_deser",
 ]
 RULE = ("flat classes (1..5 fields: Integer/Number/Float incl. sign variants, String, Boolean, Enum, and Array/Deque/"
         "Set/Tuple/Map over them) from the type-directed declaration generator; per class a valid argument set, then "
